@@ -179,7 +179,10 @@ fn not(value: Value) -> Result<Value> {
 
 fn neg(value: Value) -> Result<Value> {
     match value {
-        Value::Int(value) => Ok(Value::Int(-value)),
+        Value::Int(inner) => inner
+            .checked_neg()
+            .map(Value::Int)
+            .ok_or_else(|| Error::value_out_of_bounds(value, "neg")),
         Value::Float(value) => Ok(Value::Float(-value)),
         Value::Decimal(value) => Ok(Value::Decimal(-value)),
 
@@ -300,7 +303,10 @@ fn duration(value: Value) -> Result<Value> {
 
 fn mult(left: Value, right: Value) -> Result<Value> {
     match (left, right) {
-        (Value::Int(left), Value::Int(right)) => Ok(Value::Int(left * right)),
+        (Value::Int(left), Value::Int(right)) => left
+            .checked_mul(right)
+            .map(Value::Int)
+            .ok_or_else(|| Error::value_out_of_bounds(Value::Int(left), "mult")),
         (Value::Float(left), Value::Float(right)) => Ok(Value::Float(left * right)),
         (Value::Decimal(left), Value::Decimal(right)) => Ok(Value::Decimal(left * right)),
 
@@ -343,7 +349,10 @@ fn rem(left: Value, right: Value) -> Result<Value> {
 
 fn add(left: Value, right: Value) -> Result<Value> {
     match (left, right) {
-        (Value::Int(left), Value::Int(right)) => Ok(Value::Int(left + right)),
+        (Value::Int(left), Value::Int(right)) => left
+            .checked_add(right)
+            .map(Value::Int)
+            .ok_or_else(|| Error::value_out_of_bounds(Value::Int(left), "add")),
         (Value::Float(left), Value::Float(right)) => Ok(Value::Float(left + right)),
         (Value::Decimal(left), Value::Decimal(right)) => Ok(Value::Decimal(left + right)),
         (Value::DateTime(left), Value::Duration(right)) => Ok(Value::DateTime(left + right)),
@@ -355,7 +364,10 @@ fn add(left: Value, right: Value) -> Result<Value> {
 
 fn sub(left: Value, right: Value) -> Result<Value> {
     match (left, right) {
-        (Value::Int(left), Value::Int(right)) => Ok(Value::Int(left - right)),
+        (Value::Int(left), Value::Int(right)) => left
+            .checked_sub(right)
+            .map(Value::Int)
+            .ok_or_else(|| Error::value_out_of_bounds(Value::Int(left), "sub")),
         (Value::Float(left), Value::Float(right)) => Ok(Value::Float(left - right)),
         (Value::Decimal(left), Value::Decimal(right)) => Ok(Value::Decimal(left - right)),
         (Value::DateTime(left), Value::DateTime(right)) => Ok(Value::Duration(left - right)),
